@@ -14,7 +14,8 @@ import MdVerif.Driver.Ang
 import MdVerif.Driver.Sasa
 import MdVerif.Driver.Qcp
 import MdVerif.Driver.Image
-open MdVerif MdVerif.Driver MdVerif.Driver.TrajP MdVerif.Driver.TopoP MdVerif.Driver.WriterP MdVerif.Driver.SelP MdVerif.Driver.MicP MdVerif.Driver.CellP MdVerif.Driver.NbP MdVerif.Driver.AngP MdVerif.Driver.SasaP MdVerif.Driver.QcpP MdVerif.Driver.ImageP
+import MdVerif.Driver.Descr
+open MdVerif MdVerif.Driver MdVerif.Driver.TrajP MdVerif.Driver.TopoP MdVerif.Driver.WriterP MdVerif.Driver.SelP MdVerif.Driver.MicP MdVerif.Driver.CellP MdVerif.Driver.NbP MdVerif.Driver.AngP MdVerif.Driver.SasaP MdVerif.Driver.QcpP MdVerif.Driver.ImageP MdVerif.Driver.DescrP
 
 def handle (line : String) : String :=
   let ws := (line.splitOn " ").filter (· ≠ "")
@@ -30,6 +31,7 @@ def handle (line : String) : String :=
   | "ang" :: _ | "dih" :: _ | "tors" :: _ => handleAng ws
   | "sasa" :: _ => handleSasa ws
   | "qcp" :: _ | "qrot" :: _ => handleQcp ws
+  | "contacts" :: _ | "allpairs" :: _ | "moments" :: _ | "drid" :: _ | "wsums" :: _ => handleDescr ws
   | "imgorder" :: _ | "imgvalid" :: _ | "imgwhole" :: _ | "imgwrap" :: _ => handleImage ws
   | _ => "bad-op"
 
